@@ -818,11 +818,12 @@ def run(ctx):
                         'O(h^2) error bound is checked by S only (c = 1, H = largest node spacing per axis)']
     ctx.lean_check(['Cherab.Props.C14'], 'Cherab/Audit/C14.lean')
 
+    corpus_stream(ctx)
     drv = Drv()
     try:
         ctor_stream(ctx, drv)
-        find_index_stream(ctx, drv, ctx.n(300, 5000))
-        nsc = {1: ctx.n(40, 500), 2: ctx.n(14, 150), 3: ctx.n(2, 20)}
+        find_index_stream(ctx, drv, ctx.n(300, 20000))
+        nsc = {1: ctx.n(40, 2500), 2: ctx.n(14, 700), 3: ctx.n(2, 60)}
         for dim in (1, 2, 3):
             for _ in range(nsc[dim]):
                 sc = rnd_scenario(ctx.rng, dim)
@@ -843,26 +844,40 @@ def run(ctx):
                 for o in (list(range(n)), list(reversed(range(n)))):
                     c, out = run_impl(sc, o)
                     ctx.traces += k_history(ctx, drv, sc, o, c, out, 'witness ' + w['name'])
-        explore_fragile(ctx, ctx.n(30, 400))
+        explore_fragile(ctx, ctx.n(30, 1500))
         ctx.extra['driver_lines'] = drv.lines
     finally:
         drv.close()
 
 
-def replay(ctx, path):
-    r = json.load(open(path))
-    rep = r.get('replay') or {}
-    print(json.dumps(rep, indent=1)[:3000])
+def _replay_one(ctx, rep):
+    """re-execute one stored failing input against the real code with the oracle that produced it"""
     chk = rep.get('check')
     if chk == 'find_index':
         from harness.vlib import shim
         m = shim.ensure()
-        print('find_index ->', m.find_index(np.array(rep['x'], dtype=np.float64), rep['v'], rep['padding']))
+        x, v, pad = rep['x'], rep['v'], rep['padding']
+        got = int(m.find_index(np.array(x, dtype=np.float64), v, pad))
+        top = len(x) - 1
+        if x[0] < v < x[-1]:
+            okb = 0 <= got < top and x[got] <= v < x[got + 1]
+        elif v == x[0]:
+            okb = got == 0
+        elif v == x[-1]:
+            okb = got == top - 1
+        elif v < x[0]:
+            okb = got == (-1 if v >= x[0] - pad else -2)
+        else:
+            okb = got == (top if v <= x[-1] + pad else top + 1)
+        if not okb:
+            ctx.fail('C14:find_index:bracket', 'find_index(%r, %r, padding=%r) = %d' % (x, v, pad, got), rep)
     elif chk in ('values', 'inside-raises', 'bounds', 'outside', 'history'):
-        sc = rep['scenario']
+        sc = dict(rep['scenario'])
         sc['points'] = [tuple(p) for p in sc.get('points', [])]
         if sc['bounds'] is not None:
             sc['bounds'] = tuple(sc['bounds'])
+        if sc['fn'].get('nan') is not None:
+            sc['fn'] = dict(sc['fn'], nan=tuple(sc['fn']['nan']))
         fn = Fn(sc['fn'])
         p = tuple(rep['point'])
         if chk == 'history':
@@ -878,10 +893,29 @@ def replay(ctx, path):
             s_bounds(ctx, sc, random.Random(0))
         else:
             c = build(sc, fn)
-            one = dict(sc, points=[p])
-            _single_point_oracle(ctx, one, c, fn, p)
-        ctx.case(key=('replay', chk))
+            _single_point_oracle(ctx, dict(sc, points=[p]), c, fn, p)
     else:
+        return False
+    ctx.case(key=('replay', chk, json.dumps(rep.get('point', rep.get('v')))))
+    return True
+
+
+def corpus_stream(ctx):
+    d = os.path.join(os.path.dirname(os.path.dirname(os.path.dirname(os.path.abspath(__file__)))), 'corpus', 'C14')
+    if not os.path.isdir(d):
+        return
+    for f in sorted(os.listdir(d)):
+        if f.endswith('.json'):
+            n0 = len(ctx.failing) + len(ctx.known_hits)
+            _replay_one(ctx, json.load(open(os.path.join(d, f)))['replay'])
+            ctx.count('corpus:' + ('fails' if len(ctx.failing) + len(ctx.known_hits) > n0 else 'no-new-failure'))
+
+
+def replay(ctx, path):
+    r = json.load(open(path))
+    rep = r.get('replay') or {}
+    print(json.dumps(rep, indent=1)[:3000])
+    ctx.rule = 'replay of one stored failing input against the real implementation'
+    if not _replay_one(ctx, rep):
         run(ctx)
-    ctx.rule = ctx.rule or 'replay of one stored failing input'
     return ctx.finish()
